@@ -21,7 +21,8 @@ import time
 
 ROOT = os.path.dirname(os.path.dirname(os.path.abspath(__file__)))
 REPO = os.environ.get('VERIF_REPO', '/repo')
-BUILD = os.path.join(ROOT, 'build')
+BUILD = os.environ.get('VERIF_BUILD_DIR') or os.path.join(ROOT, 'build')
+REPLAYS = os.environ.get('VERIF_REPLAY_DIR') or os.path.join(ROOT, 'replays')
 sys.path.insert(0, os.path.join(ROOT, 'tools'))
 
 CBMC_BASE = ['--bounds-check', '--pointer-check', '--pointer-overflow-check', '--signed-overflow-check',
@@ -654,7 +655,7 @@ def match_known(known, prop, res):
 
 
 def write_replay(prop, res, native=None):
-    d = os.path.join(ROOT, 'replays', prop)
+    d = os.path.join(REPLAYS, prop)
     os.makedirs(d, exist_ok=True)
     path = os.path.join(d, '%s.%s.%s.json' % (res['unit'], res['ob'], res['config']))
     doc = {'property': prop, 'unit': res['unit'], 'obligation': res['ob'], 'config': res['config'],
@@ -670,6 +671,12 @@ def run_property(prop, tier, seed, jobs_n):
     t_start = time.time()
     ctx = Ctx()
     jobs = select(ctx, prop, tier)
+    only = os.environ.get('VERIF_ONLY')  # development aid: regex on unit/obligation; evidence must then go elsewhere
+    if only:
+        if not os.environ.get('VERIF_EVIDENCE_DIR'):
+            print('VERIF_ONLY needs VERIF_EVIDENCE_DIR (a partial run must not overwrite the evidence)')
+            return 2
+        jobs = [(u, ob, cfg) for u, ob, cfg in jobs if re.search(only, '%s/%s' % (u['unit'], ob['id']))]
     meta = load_json(os.path.join(ROOT, 'props_meta.json')).get(prop, {})
     level = meta.get('level', 'proof')
     undecided = []
